@@ -146,7 +146,12 @@ def case(chk, i):
                 cands = it.members
             # an unqualified pattern is matched against the qualified path like any other (wild cards may still reach into the namespace)
             return any(re.fullmatch(pat, (nsp + c) if bare else c) for c in cands)
-        R = set(it.name for it in items if any(matches(kd, pat, it) for kd, pat, _ in pats))
+        # function generation switched off: functions are never emitted, everything else (incl. types that are reachable only through
+        # the signature of a function-pointer member / typedef) is selected and closed over as usual
+        nofn = chk.rng("nofn", i, s).random() < 0.25
+        if nofn:
+            flags.append(r.choice(["--ignore-functions", "--generate=types,vars"]))
+        R = set(it.name for it in items if any(matches(kd, pat, it) for kd, pat, _ in pats) and not (nofn and it.kind == "function"))
         B = set(it.name for it in items for bk, bn in block if (bk == "item" or it.kind == bk) and it.name == bn)
         anyroot = bool(R)
         R -= B
@@ -202,7 +207,7 @@ def case(chk, i):
             return seen
         C = cl(R)
         # upper bound for minimality: roots before the blocklist is applied, needs followed through everything
-        Rall = set(it.name for it in items if any(matches(kd, pat, it) for kd, pat, _ in pats))
+        Rall = set(it.name for it in items if any(matches(kd, pat, it) for kd, pat, _ in pats) and not (nofn and it.kind == "function"))
         CU = gen_allow.closure(items, Rall)
         miss = R - E
         if miss:
@@ -241,7 +246,7 @@ def case(chk, i):
                 problems.append("layout assertions of %s differ from the un-allowlisted bindings" % t)
         obs = {"selections": 1, "items_compared_textually": ntok, "selected_roots": len(R), "closure_size": len(C), "emitted": len(E),
                "pattern_form." + pats[0][2]: 1, "recursive": int(recursive), "with_blocklist": int(bool(block)),
-               "namespaced_selections": int(bool(ns))}
+               "namespaced_selections": int(bool(ns)), "selections_without_function_generation": int(nofn)}
         if recursive and not problems and not B:
             w = write(os.path.join(d, "w%d_%d.rs" % (i, s)), '#![allow(warnings)]\ninclude!("%s");\n' % o)
             rcr, sor, ser, _ = sh(["rustc", "--edition", "2021", "--crate-type", "lib", "--emit=metadata", "-o", os.path.join(d, "w%d_%d.rmeta" % (i, s)), w], timeout=120)
